@@ -95,6 +95,20 @@ def fold_monitors(pid, v, trace, desc):
     return rej
 
 
+def every_nth_program(path, n):
+    """a file with every n-th program of `path` (programs end with a line "end")"""
+    outp = path + ".nth%d" % n
+    with open(path) as f, open(outp, "w") as g:
+        k, keep = 0, True
+        for line in f:
+            if keep:
+                g.write(line)
+            if line.startswith("end"):
+                k += 1
+                keep = (k % n == 0)
+    return outp
+
+
 def trace_stats(trace):
     nprog, nontriv, crashes = 0, 0, 0
     blocked = False
@@ -163,7 +177,7 @@ def kernel_part(pid, tier, replay, v):
             for vn, ex in variants:
                 runs.append((vn, ex, scen, "regression scenarios"))
         # 2. seeded random programs
-        n = 250 if tier == "quick" else 2500
+        n = 250 if tier == "quick" else 1500
         for pf in PROFILES_FOR[pid]:
             path = gen_programs(pid, pf, (3 if tier == "quick" else 12) if pf == "longrec" else n, vlib.seed(), out)
             for vn, ex in variants:
@@ -171,6 +185,8 @@ def kernel_part(pid, tier, replay, v):
     nprog = nontriv = crashes = 0
     for vn, ex, progs, desc in runs:
         tp = os.path.join(out, "trace_%s_%s.ndjson" % (re.sub(r"\W+", "_", desc), vn))
+        if vn == "san" and desc.startswith("TLC-exported programs "):
+            progs = every_nth_program(progs, 5)      # the sanitizer build is 5-10x slower: a fifth of the exported programs
         rc, o = vlib.run([ex, "run", progs, tp], timeout=3000)
         if rc not in (0, 3):
             raise vlib.MachineryError("kernel_replay failed rc=%d: %s" % (rc, o[-2000:]))
@@ -198,6 +214,8 @@ def kernel_part(pid, tier, replay, v):
                     len(drifts), np_, name, drifts[0][0], drifts[0][1], drifts[0][2])
                 v.notes.append(msg)
                 print(msg)
+        if tier == "thorough" and not replay and os.path.getsize(tp) > 50_000_000:
+            os.remove(tp)        # the thorough tier writes tens of GB of traces: replay files of rejected programs are kept, the trace is not
         if len(v.cov["samples"]) < 4:
             with open(progs) as f:
                 txt = f.read().split("end\n")
